@@ -280,7 +280,7 @@ def run(res):
     vh, exe = P.base(res, PROP)
     rng = random.Random(res.seed)
     base = fsrun.work_root()
-    n = 500 if res.tier == "quick" else 6000
+    n = 500 if res.tier == "quick" else 120000
     cases = []
     for i in range(n):
         c = Gen(rng, "%s/t%d" % (base, i), i).build()
